@@ -57,6 +57,10 @@ def qual_key(q):
     return q
 
 
+OP_TRAITS = {'BitAnd', 'BitOr', 'BitXor', 'Add', 'Sub', 'BitAndAssign', 'BitOrAssign', 'BitXorAssign',
+             'Shl<usize>', 'Shr<usize>', 'ShlAssign<usize>', 'ShrAssign<usize>', 'Not', 'Shl', 'Shr', 'ShlAssign', 'ShrAssign'}
+
+
 def compute_closure(fns, roots):
     """fns: scan_fns output.  roots: list of names (bare or Owner::name).
     Over-approximate call graph by identifier occurrence."""
@@ -75,6 +79,10 @@ def compute_closure(fns, roots):
             work.extend(by_bare[r])
         else:
             raise Undecided('root function %s not present in woven unit' % r)
+    # operator impls are used through operator syntax, never by name: always part of the closure
+    for f in fns:
+        if f.get('trait') in OP_TRAITS:
+            work.append(f)
     seen = set()
     out = []
     ident = re.compile(r'\b([A-Za-z_]\w*)\s*\(')
@@ -85,9 +93,9 @@ def compute_closure(fns, roots):
         seen.add(id(f))
         out.append(f)
         for name in set(ident.findall(f['text'])):
-            if name in by_bare and name != f['name']:
+            if name in by_bare:
                 for g in by_bare[name]:
-                    if id(g) not in seen:
+                    if id(g) not in seen and g is not f:
                         work.append(g)
     return out
 
